@@ -291,8 +291,23 @@ func tagText(fe FrontEnd, key string, cfg int) string {
 		parts = append(parts, fmt.Sprintf(`x%s:"foreign_%s" proto%s:"other_%s" xzog:"foreignzog_%s"`, src, key, src, key, key))
 	case 6:
 		parts = append(parts, fmt.Sprintf(`zog:"z_%s,omitempty"`, key))
+	case 7:
+		// the tag renames the field to the SCHEMA KEY OF A SIBLING (a rotation of the names within each record):
+		// every document then holds, under each field's schema key, a value that belongs to another field
+		name := src
+		if name == "" {
+			name = "zog"
+		}
+		parts = append(parts, fmt.Sprintf(`%s:"%s"`, name, tagRotation[key]))
 	}
 	return strings.Join(parts, " ")
+}
+
+// tagRotation: within each record of the skeletons, field k is renamed to the schema key of the next field.
+var tagRotation = map[string]string{
+	"s": "i", "i": "l", "l": "n", "n": "s", // record
+	"s2": "b2", "b2": "s2", "d": "d", "s3": "i3", "i3": "s3",
+	"p": "q", "q": "p", "s4": "i4", "i4": "s4", // record with optional parts (s, p, q, n are rotated below)
 }
 
 // recordSkel builds the record skeleton with the given tag configuration for front end fe.
@@ -313,6 +328,16 @@ func recordSkel(fe FrontEnd, tags map[string]int, deep bool) *Skel {
 		for i := range s.Fields {
 			f := &s.Fields[i]
 			f.Tag = tagText(fe, f.Key, tags[f.Key])
+			if tags[f.Key] == 7 && tags[shapeKey] == 1 {
+				// record with optional parts: s -> p -> q -> n -> s
+				if r, ok := map[string]string{"s": "p", "p": "q", "q": "n", "n": "s"}[f.Key]; ok {
+					name := fe.SourceTag()
+					if name == "" {
+						name = "zog"
+					}
+					f.Tag = fmt.Sprintf(`%s:"%s"`, name, r)
+				}
+			}
 			x := f.S
 			for x.Kind == KPtr || x.Kind == KSlice {
 				x = x.Elem
